@@ -151,8 +151,11 @@ func (p *Parser) ParseBool() bool {
 	}
 }
 
-func (p *Parser) ParsePointer() int64 {
-	return p.ParseInt64()
+// ParsePointer
+// an address is not a signed number: printed as one, the upper half of the address space
+// comes out negative ("0x-87ffff47c71")
+func (p *Parser) ParsePointer() uint64 {
+	return uint64(p.ParseInt64())
 }
 
 func (p *Parser) SetBigEndian(bigEndian bool) {
